@@ -3,6 +3,7 @@ package rules
 import (
 	"go/ast"
 	"go/constant"
+	"go/token"
 	"go/types"
 	"reflect"
 	"strings"
@@ -20,7 +21,7 @@ const pTCC = core.Module + "/pkg/rm/tcc"
 func isTPA(f *types.Func, name string) bool { return core.IsMethod(f, pRM, "TwoPhaseAction", name) }
 
 func checkC05(r *core.Run) {
-	r.Explain = "Decided statically: (C05.before) in the TCC proxy's Prepare the user's try (TwoPhaseAction.Prepare -> reflective call of the prepare method) is reached inside a global transaction only through the nil-error edge of the step that reaches RMRemoting.BranchRegister; one register call site, not in a loop; (C05.param) BranchRegisterParam: BranchType=BranchTypeTCC, ResourceId from GetActionName(), Xid from tm.GetXID(ctx), ApplicationData = JSON of a map whose ActionContext entry is built from the tagged parameters of params; (C05.wiring) TCC BranchCommit reaches TwoPhaseAction.Commit only, BranchRollback reaches Rollback only; each TwoPhaseAction method calls its own method field; the parser stores the function tagged commit/rollback/prepare into the homonymous field; each phase sets its own fence phase constant; (C05.unknown) a failed resource lookup returns an error without reaching user code; (C05.once) one user-method call site per request, not in a loop; (C05.status) committed/rollbacked only on the nil-error path of the user call, a retryable failure status on its error path; (C05.ctx) Xid/BranchId/ActionName of the reconstructed action context come from the request, the action context is read under the key constant it was written under. NOT decided: JSON equivalence for arbitrary parameter structs, reflection over all struct shapes."
+	r.Explain = "Decided statically: (C05.before) in the TCC proxy's Prepare the user's try (TwoPhaseAction.Prepare -> reflective call of the prepare method) is reached inside a global transaction only through the nil-error edge of the step that reaches RMRemoting.BranchRegister; one register call site, not in a loop; (C05.param) BranchRegisterParam: BranchType=BranchTypeTCC, ResourceId from GetActionName(), Xid from tm.GetXID(ctx), ApplicationData = JSON of a map whose ActionContext entry is built from the tagged parameters of params; (C05.wiring) TCC BranchCommit reaches TwoPhaseAction.Commit only, BranchRollback reaches Rollback only; each TwoPhaseAction method calls its own method field; the parser stores the function tagged commit/rollback/prepare into the homonymous field; each phase sets its own fence phase constant; (C05.unknown) a failed resource lookup returns an error without reaching user code; (C05.once) one user-method call site per request, not in a loop; (C05.status) committed/rollbacked only on the nil-error path of the user call, a retryable failure status on its error path; (C05.ctx) Xid/BranchId/ActionName of the reconstructed action context come from the request, the action context is read under the key constant it was written under. (C05.ctx, also) no package-level variable is among the values a reference-typed field of the reconstructed action context can hold (each request gets its own map). NOT decided: JSON equivalence for arbitrary parameter structs, reflection over all struct shapes."
 	r.Trusted = []string{"go/types, go/cfg", "reflect.Value.Call invokes the function stored in the field", "encoding/json"}
 	w := r.W
 	mgr := managerFor(r, "BranchTypeTCC")
@@ -605,6 +606,88 @@ func c05Ctx(r *core.Run, fn *core.FuncInfo, action string) {
 		}
 	}
 	r.Check(strings.Contains(ac, "[const:ActionContext]") || strings.Contains(ac, "const:ActionContext"), "C05.ctx", bk+"ActionContext", w.Pos(lit.Pos()), "ActionContext derives from the decoded application data", "ActionContext derives from "+ac)
+	// the object handed to the user's commit / rollback method belongs to that request: none of the values that can
+	// end up in a reference-typed field of it is a package-level variable (the default for "no action context sent"
+	// included) — the user method may write into it, and the next request would see those entries
+	shared := ""
+	for _, el := range lit.Elts {
+		kv, ok := el.(*ast.KeyValueExpr)
+		if !ok {
+			continue
+		}
+		switch builder.Pkg.TypesInfo.TypeOf(kv.Value).Underlying().(type) {
+		case *types.Map, *types.Slice, *types.Pointer, *types.Interface:
+			if v := sharedVarIn(w, builder, kv.Value, 0, map[types.Object]bool{}); v != nil && shared == "" {
+				shared = core.ExprString(kv.Key) + " can be the package-level variable " + v.Name()
+			}
+		}
+	}
+	r.Sites++
+	r.Check(shared == "", "C05.ctx", bk+"reference fields are this request's own", w.Pos(lit.Pos()), "fresh or decoded values only",
+		shared+": every phase-two request that takes this path hands the same object to the user's method; what one commit / rollback writes into it is part of the action context the next one sees (and concurrent requests write one map)")
+}
+
+// sharedVarIn: a package-level variable among the values e can denote in f (through the definitions of local
+// variables, type assertions, element / field reads and helpers of the package)
+func sharedVarIn(w *core.World, f *core.FuncInfo, e ast.Expr, depth int, seen map[types.Object]bool) *types.Var {
+	if depth > 4 || e == nil {
+		return nil
+	}
+	info := f.Pkg.TypesInfo
+	switch x := ast.Unparen(e).(type) {
+	case *ast.Ident:
+		v, ok := info.Uses[x].(*types.Var)
+		if !ok {
+			return nil
+		}
+		if v.Pkg() != nil && v.Parent() == v.Pkg().Scope() {
+			return v
+		}
+		if seen[v] || v.IsField() {
+			return nil
+		}
+		seen[v] = true
+		for _, d := range localDefs(f, v) {
+			if d.rng {
+				continue
+			}
+			if s := sharedVarIn(w, f, d.rhs, depth+1, seen); s != nil {
+				return s
+			}
+		}
+	case *ast.UnaryExpr:
+		if x.Op == token.AND {
+			return sharedVarIn(w, f, x.X, depth+1, seen)
+		}
+	case *ast.TypeAssertExpr:
+		return sharedVarIn(w, f, x.X, depth+1, seen)
+	case *ast.IndexExpr:
+		return sharedVarIn(w, f, x.X, depth+1, seen)
+	case *ast.SelectorExpr:
+		if v, ok := info.Uses[x.Sel].(*types.Var); ok && v.Pkg() != nil && v.Parent() == v.Pkg().Scope() {
+			return v // pkg.Var
+		}
+		return sharedVarIn(w, f, x.X, depth+1, seen)
+	case *ast.CallExpr:
+		if h := w.Info(core.Callee(info, x)); h != nil && h.Pkg == f.Pkg && h.Decl.Body != nil {
+			var found *types.Var
+			ast.Inspect(h.Decl.Body, func(n ast.Node) bool {
+				if _, isLit := n.(*ast.FuncLit); isLit {
+					return false
+				}
+				if rs, ok := n.(*ast.ReturnStmt); ok && found == nil {
+					for _, res := range rs.Results {
+						if s := sharedVarIn(w, h, res, depth+1, seen); s != nil {
+							found = s
+						}
+					}
+				}
+				return true
+			})
+			return found
+		}
+	}
+	return nil
 }
 
 // c05Fields: TwoPhaseAction methods call their own field; the parser fills each field from the matching tag / method name.
